@@ -137,8 +137,28 @@ def gen_tree(rng, depth, counter, horizon, under_best=False, top=False, pe=False
         return {"t": "everyN", "id": nid, "n": rng.randint(1, 7),
                 "ch": gen_tree(rng, depth - 1, counter, max(1, horizon // 2), under_best)}
     # eval
-    best = gen_tree(rng, depth - 1, counter, 2, True, pe=True) if rng.chance(0.6) else None
-    after = gen_tree(rng, depth - 1, counter, max(1, horizon // 2), under_best, pe=True) if rng.chance(0.7) else None
+    def child(hz, ub):
+        if rng.chance(0.12):
+            # a callback reading `parent.best_mean_reward` two CallbackLists below the EvalCallback (parent pass-through)
+            def stopper():
+                i = counter[0]
+                counter[0] += 1
+                return ({"t": "thr", "id": i, "thr": rng.choice(THRESHOLDS)} if rng.chance(0.5)
+                        else {"t": "noimp", "id": i, "max": rng.randint(0, 2), "min": rng.randint(0, 2)})
+            outer = counter[0]
+            inner = counter[0] + 1
+            counter[0] += 2
+            inner_ch = [stopper()]
+            if rng.chance(0.5):
+                inner_ch.append(gen_tree(rng, 0, counter, hz, ub, pe=True))
+            outer_ch = [{"t": "list", "id": inner, "ch": inner_ch}]
+            if rng.chance(0.4):
+                outer_ch.append(gen_tree(rng, 0, counter, hz, ub, pe=True))
+            return {"t": "list", "id": outer, "ch": outer_ch}
+        return gen_tree(rng, depth - 1, counter, hz, ub, pe=True)
+
+    best = child(2, True) if rng.chance(0.6) else None
+    after = child(max(1, horizon // 2), under_best) if rng.chance(0.7) else None
     return {"t": "eval", "id": nid, "freq": rng.weighted([(0, 0.5), (1, 3), (2, 3), (3, 2), (4, 1), (5, 1)]),
             "best": best, "after": after, "script": gen_eval_script(rng), "n_ep": rng.randint(1, 3)}
 
